@@ -135,7 +135,12 @@ def build_tree(w, sc):
 # the permitted-roots model
 
 def norm(path):
-    return os.path.normpath(path)
+    path = os.path.normpath(path)
+    if path.startswith('//'):
+        # normpath keeps exactly two leading slashes (POSIX leaves their
+        # meaning open); on this platform they name the same file as one
+        path = '/' + path.lstrip('/')
+    return path
 
 
 def inside(path, root):
